@@ -238,7 +238,23 @@ fn encode_block(
         match encoder {
             Some(Encoder::Fqzcomp) => {
                 if all_quality_scores_stored_as_arrays {
-                    let lens: Vec<_> = records.iter().map(|r| r.read_length).collect();
+                    // A read base feature also writes its quality score to the quality scores data
+                    // series (before the quality scores array of the record), so it counts toward
+                    // the number of quality scores of the record.
+                    let lens: Vec<_> = records
+                        .iter()
+                        .map(|r| {
+                            let read_base_count = r
+                                .features
+                                .iter()
+                                .filter(|feature| {
+                                    matches!(feature, crate::io::writer::record::Feature::ReadBase { .. })
+                                })
+                                .count();
+
+                            r.read_length + read_base_count
+                        })
+                        .collect();
                     let data = fqzcomp::encode(&lens, src)?;
 
                     Ok(Block {
